@@ -81,8 +81,8 @@ def make_files(tier, rng, ctx):
         big = G.rseq(rng, 8000)
         files.append({'name': 'manyframes64', 'k': 31, 'path': build('manyframes64', 31, [[big], [big[:4000] + G.rseq(rng, 4000)], [G.rseq(rng, 4500)]]), 'cli': False})
         # > 65536 rows: too big for a complete enumeration; damage is targeted at the frame structure plus a random sample
-        hg = G.rseq(rng, 40000)
-        files.append({'name': 'huge64', 'k': 31, 'path': build('huge64', 31, [[hg], [hg[:20000] + G.rseq(rng, 20000)]]), 'cli': False, 'targeted': True})
+        hg = G.rseq(rng, 60000)
+        files.append({'name': 'huge64', 'k': 31, 'path': build('huge64', 31, [[hg], [hg[:30000] + G.rseq(rng, 30000)]]), 'cli': False, 'targeted': True})
         files.append({'name': 'single_strand', 'k': 21, 'path': build('single_strand', 21, [[G.rseq(rng, 120)]], rcmode=False), 'cli': True})
     for f in files:
         f['size'] = os.path.getsize(f['path'])
